@@ -69,8 +69,11 @@ class CanDynamicSchema: public ICanSchema {
             return std::nullopt;
         }
 
-        std::uint8_t dlc = encoded.value().size();
         std::array<std::uint8_t, 8> data = {0};
+        if (encoded.value().size() > data.size()) {
+            return std::nullopt;
+        }
+        std::uint8_t dlc = encoded.value().size();
         std::copy(encoded.value().begin(), encoded.value().end(), data.begin());
         return frame_t{bus.value(), id.value(), dlc, data};
     }
